@@ -548,7 +548,7 @@ def check_formats(ctx, rule="C06.R10"):
                 continue        # belongs to a nested function, which is visited on its own
             want = format_arity(node.left.value)
             r = node.right
-            if isinstance(r, (ast.Name, ast.Attribute, ast.Subscript)) and any(isinstance(x, ast.Name) and x.id == "obj" for x in ast.walk(r)):
+            if isinstance(r, (ast.Name, ast.Attribute, ast.Subscript)) and any(isinstance(x, ast.Name) and x.id in ("obj", "data", "value", "item", "element") for x in ast.walk(r)):
                 # the object being parsed/built is arbitrary user data: as a bare operand of %, a tuple would be unpacked into the format
                 n += 1
                 ctx.ob(rule, fi, False, "format string %r is applied to the bare object %s: if that object is a tuple the formatting itself raises TypeError -- wrap it as (%s,)" % (
